@@ -284,24 +284,33 @@ def s4(ctx, rep):
     call = [x for x in walk_shallow(b.node) if isinstance(x, ast.Call) and "priority" in U(x.func) and x.args]
     if len(call) != 1:
         raise AnchorError("_Bracket.on_result: priority call not found")
+    from ..engine import vars_assigned_from
+    lp = [s for s in walk_shallow(b.node) if isinstance(s, ast.For) and U(s.iter) == "self._rungs" and isinstance(s.target, ast.Tuple)
+          and len(s.target.elts) == 2]
+    if len(lp) != 1:
+        raise AnchorError("_Bracket.on_result: loop over (milestone, recorded) in self._rungs not found")
+    recv = U(lp[0].target.elts[1])
+    rkv = vars_assigned_from(b, lambda v: isinstance(v, ast.BinOp) and isinstance(v.op, ast.Div) and isinstance(v.left, ast.Call)
+                             and fn_name(v.left) == "searchsorted")
+    lastv = vars_assigned_from(b, lambda v: isinstance(v, ast.Subscript) and U(v.slice) == "-1" and U(v.value) in rkv)
     mv = call[0].args[0]
     src = [d for d in local_defs(b, mv.id) if not isinstance(d, tuple)][0] if isinstance(mv, ast.Name) else mv
     ok = False
     for x in ast.walk(src):
         if isinstance(x, ast.BinOp) and isinstance(x.op, ast.Add) and isinstance(x.right, ast.List) and "metrics" in U(x.right) \
-                and "recorded" in U(x.left):
+                and any(isinstance(y, ast.Name) and y.id == recv for y in ast.walk(x.left)):
             ok = True
     rep.put(ok, "S4", "must_precede", "_Bracket.on_result: new metrics appended last before the priority is computed", b, src,
             "recorded rows + [new row]", "the priority is computed without the new trial's own metrics as the last row")
     # rank of the new trial is read at position -1
-    rk = [x for x in walk_shallow(b.node) if isinstance(x, ast.Subscript) and U(x.slice) == "-1" and "rank" in U(x.value)]
+    rk = [x for x in walk_shallow(b.node) if isinstance(x, ast.Subscript) and U(x.slice) == "-1" and U(x.value) in rkv]
     rep.put(len(rk) == 1, "S4", "agreement", "_Bracket.on_result: the new trial's rank is the last entry", b, rk[0] if rk else None, "")
     # STOP iff rank > 1/rf
     stops = [n for n in cfg.nodes if n.kind == "stmt" and isinstance(n.ast, ast.Assign) and U(n.ast.value).endswith("SchedulerDecision.STOP")]
     ok = len(stops) == 1
     if ok:
         at = ctx.facts(b).at(stops[0].id)
-        ok = any(a[0] == "lt" and a[1].replace(" ", "") in ("1/self.rf", "1.0/self.rf") and "rank" in a[2] for a in at)
+        ok = any(a[0] == "lt" and a[1].replace(" ", "") in ("1/self.rf", "1.0/self.rf") and a[2] in lastv for a in at)
     rep.put(ok, "S4", "guarded_by", "_Bracket.on_result: STOP iff rank > 1 / reduction_factor", b, stops[0].ast if stops else None, "",
             "the STOP decision is not taken exactly when the rank fraction exceeds 1/reduction_factor")
     # normalisation of the rank: searchsorted / len
@@ -310,12 +319,12 @@ def s4(ctx, rep):
     rep.put(len(nr) == 1, "S4", "agreement", "_Bracket.on_result: rank fraction = position / number recorded incl. itself", b, nr[0] if nr else None, "")
     # recorded[trial_id] = metrics follows on every path that reaches a rung
     rec = {n.id for n in cfg.nodes if n.kind == "stmt" and isinstance(n.ast, ast.Assign) and isinstance(n.ast.targets[0], ast.Subscript)
-           and U(n.ast.targets[0].value) == "recorded" and U(n.ast.targets[0].slice) == "trial_id"}
+           and U(n.ast.targets[0].value) == recv and U(n.ast.targets[0].slice) == "trial_id"}
     pr = [n.id for n in cfg.nodes if any(x is call[0] for x in cfg.node_walk(n.id))]
     p = cfg.path([s for s, l in cfg.succ[pr[0]]], cfg.exit, deleted=rec, skip_labels=("exc",)) if pr else None
     rep.put(bool(rec) and p is None, "S4", "must_follow", "_Bracket.on_result: the trial is recorded at the rung on every path", b, None, "")
     # each trial enters a rung once
-    ok = any(n.kind == "test" and "trial_id in recorded" in U(n.ast) for n in cfg.nodes)
+    ok = any(n.kind == "test" and f"trial_id in {recv}" in U(n.ast) for n in cfg.nodes)
     rep.put(ok, "S4", "guarded_by", "_Bracket.on_result: a trial already recorded at a rung is skipped", b, None, "")
     # STOP at max_t
     f = P.method("MOASHA", "on_trial_result")
